@@ -108,3 +108,99 @@ class ReadTrace(Listener):
         if self._mine():
             st = self._stack()
             self.on_event(compiler, st[-1] if st else None, addr, kind)
+
+
+# ---------------------------------------------------------------------------
+# file seam: `open` and `os` as looked up from pycel.excelcompiler's globals
+
+class InjectedIOError(OSError):
+    pass
+
+
+class _TornFile:
+    def __init__(self, f, seam):
+        self._f = f
+        self._seam = seam
+
+    def write(self, data):
+        seam = self._seam
+        seam.writes += 1
+        plan = seam.plan
+        if plan and not seam.fired and plan['kind'] in ('write-fails', 'torn-write') and \
+                seam.writes == plan['at']:
+            seam.fired = True
+            if plan['kind'] == 'torn-write':
+                self._f.write(data[:len(data) // 2])
+                self._f.flush()
+            raise InjectedIOError(28, f'No space left on device (injected, {plan["kind"]})')
+        return self._f.write(data)
+
+    def __getattr__(self, k):
+        return getattr(self._f, k)
+
+    def __enter__(self):
+        return self
+
+    def __exit__(self, *a):
+        return self._f.__exit__(*a)
+
+    def __iter__(self):
+        return iter(self._f)
+
+
+class _OsProxy:
+    def __init__(self, real, seam):
+        self._real = real
+        self._seam = seam
+
+    def unlink(self, path, *a, **k):
+        seam = self._seam
+        seam.unlinks += 1
+        plan = seam.plan
+        if plan and not seam.fired and plan['kind'] == 'unlink-fails':
+            seam.fired = True
+            raise InjectedIOError(13, 'Permission denied (injected, unlink-fails)')
+        return self._real.unlink(path, *a, **k)
+
+    def __getattr__(self, k):
+        return getattr(self._real, k)
+
+
+class FileSeam:
+    """with FileSeam(plan): ... - faults hit the n-th write / open / unlink issued by to_file"""
+
+    def __init__(self, plan=None):
+        self.plan = plan
+        self.writes = 0
+        self.opens = 0
+        self.unlinks = 0
+        self.fired = False
+
+    def _open(self, name, mode='r', *a, **k):
+        import builtins
+        if 'w' in mode:
+            self.opens += 1
+            plan = self.plan
+            if plan and not self.fired and plan['kind'] == 'open-fails' and \
+                    self.opens == plan['at']:
+                self.fired = True
+                raise InjectedIOError(13, 'Permission denied (injected, open-fails)')
+            return _TornFile(builtins.open(name, mode, *a, **k), self)
+        return builtins.open(name, mode, *a, **k)
+
+    def __enter__(self):
+        import os as real_os
+        import pycel.excelcompiler as ec
+        self._ec = ec
+        self._had_open = 'open' in ec.__dict__
+        ec.open = self._open
+        ec.os = _OsProxy(real_os, self)
+        return self
+
+    def __exit__(self, *a):
+        import os as real_os
+        ec = self._ec
+        if not self._had_open:
+            del ec.open
+        ec.os = real_os
+        return False
